@@ -120,6 +120,10 @@ Qed.
 
 
 (* SafeMap thresholds regenerated from lib/collection/safemap.go (the refinement theorem holds for any values) *)
+(* the SafeMap thresholds the checkers use are the regenerated ones *)
+Lemma link_sm_constants : Z.to_N C10_Gen.maxDeletion = sm_maxd /\ Z.to_N C10_Gen.copyThreshold = sm_copyt.
+Proof. split; reflexivity. Qed.
+
 Lemma link_maxDeletion : C10_Gen.maxDeletion = 10000%Z.
 Proof. reflexivity. Qed.
 Lemma link_copyThreshold : C10_Gen.copyThreshold = 1000%Z.
